@@ -107,6 +107,24 @@ def generate(tier, seed):
         for inner in ["(macroexpand (cdr sf))", "(macroexpand sf)", "(append sf nil)", "(length sf)", "(equal sf (cdr sf))"]:
             if nm in ("quote", "lambda", "defun", "defmacro", "declare"): continue
             reqs.append("(progn (setq sf '(%s (progn %s 1) 2)) (eval sf))" % (nm, inner))
+    # a form that, while it is being evaluated, is handed (as data) to something that walks or annotates forms:
+    # a definition whose body IS the running form, its expansion, a copy, a comparison, a sort of its elements ...
+    users = ["(eval (list 'defun 'g nil c))", "(eval (list 'defun 'g nil 1 c))", "(eval (list 'defmacro 'gm nil c))", "(eval (list 'lambda nil c))",
+             "(eval (list 'defun 'g nil (list 'progn c)))", "(eval (list 'defun 'g nil (list 'if 1 c c)))", "(eval (list 'defun 'g nil (list 'cond (list 1 c))))",
+             "(eval (list 'defun 'g nil (list 'let nil c)))", "(macroexpand c)", "(macroexpand (list 'when 1 c))", "(append c nil)", "(length c)",
+             "(equal c c)", "(mapcar 'consp c)", "(format \"%S\" 1)", "(eval (list 'quote c))",
+             "(prin1-to-string (car c))", "(eval (list 'let (list (list 'v (list 'quote c))) 'v))", "(sort (list 1 2) '<)", "(nthcdr 1 c)", "`(,@c)", "`(,c . ,c)"]
+    holders = ["(setq c '(t %s)) (eval (list 'cond c))", "(setq c '(progn %s)) (eval c)", "(setq c '(list 1 %s 2)) (eval c)", "(setq c '(if t %s 3)) (eval c)",
+               "(setq c '(if nil 3 %s)) (eval c)", "(setq c '(let ((v 1)) %s)) (eval c)", "(setq c '(let* ((v %s)) v)) (eval c)", "(setq c '(when t %s)) (eval c)",
+               "(setq c '(and t %s)) (eval c)", "(setq c '(or nil %s)) (eval c)", "(setq c '(dolist (e '(1)) %s)) (eval c)", "(setq c '(dotimes (i 1) %s)) (eval c)",
+               "(setq c '(funcall (lambda () %s))) (eval c)", "(setq c '(mapcar (lambda (e) %s) '(1))) (eval c)", "(setq c '(cons %s nil)) (eval c)",
+               "(setq c '(setq d %s)) (eval c)", "(setq c '((e) %s)) (eval (list 'defun 'h1 (car c) (car (cdr c)))) (h1 1)",
+               "(setq c '(cond (nil 1) (t %s))) (eval c)", "(setq c '(unless nil %s)) (eval c)", "(setq c '(not %s)) (eval c)", "(setq c '(-> %s (list))) (eval c)",
+               "(setq c '(if-let ((v 1)) %s)) (eval c)", "(setq c '(while-let ((v nil)) %s)) (eval c)", "(setq c '(sort (list 2 1) (lambda (p q) %s (< p q)))) (eval c)",
+               "(setq c '(seq-reduce (lambda (a e) %s) '(1 2) 0)) (eval c)", "(setq c '(format \"%%s\" %s)) (eval c)", "(setq c '(h-two %s 1)) (eval c)"]
+    for h in holders:
+        for u in users:
+            reqs.append(h % u)
     # random programs with extreme numerals
     for _ in range(1500 if tier == "quick" else 40000):
         g = ProgGen(rng, max_depth=3, ticks=False, loops=False)   # literal replacement must not touch loop bounds
